@@ -201,6 +201,138 @@ def op_trace(req):
     return res
 
 
+def tok_full(t):
+    """tok_json + quote character of a string token + (FUNC token) the text of the parameter bracket or None"""
+    emb = getattr(t, "_embeded_data", None)
+    return tok_json(t) + [getattr(t, "quote", "") or "", getattr(emb, "string", None) if emb is not None else None]
+
+
+def op_args(req):
+    """jobs = [{src, header?, ...}] -> compile each with
+         * `clean_up_paren_token` wrapped in every module that uses it: each call with the DEFAULT keyword callback gives
+           (token, is_nbt, resulting text | diagnostic class);
+         * `PreFunction.handle_lazy` and `substitute_params` wrapped: each @lazy call gives, per parameter, the tokens of
+           the argument bound to it (positional or keyword) and the TEXT that is substituted for `$param` in the body.
+       Observed at interfaces only (handle_lazy's arguments, the replacement table handed to substitute_params), so that
+       a refactoring of the private helper that computes the text does not blind the tie."""
+    import inspect
+    import jmc.compile.utils as U
+    import jmc.compile.datapack as DP
+    from jmc.compile.header import Header
+    from jmc.compile.test_compile import JMCTestPack
+    import importlib
+    mods = []
+    for name in ("jmc.compile.utils", "jmc.compile.tokenizer", "jmc.compile.header_parse", "jmc.compile.lexer_func_content",
+                 "jmc.compile.command.nbt_operation", "jmc.compile.command._flow_control", "jmc.compile.command.utils",
+                 "jmc.compile.datapack", "jmc.compile.command.condition", "jmc.compile.lexer",
+                 "jmc.compile.command.builtin_function.execute_excluded"):
+        try:
+            mods.append(importlib.import_module(name))
+        except Exception:  # noqa
+            pass
+    orig_clean = U.clean_up_paren_token
+    default_cb = inspect.signature(orig_clean).parameters["keyword_token_callback"].default
+    orig_subst = U.substitute_params
+    orig_lazy = DP.PreFunction.handle_lazy
+    res = []
+    for j in req["jobs"]:
+        cleans, lazies, seen = [], [], set()
+        stack = []
+
+        def clean(token, tokenizer, is_nbt=True, keyword_token_callback=default_cb):
+            plain = keyword_token_callback is default_cb and not Header().macros
+            try:
+                out = orig_clean(token, tokenizer, is_nbt, keyword_token_callback)
+            except _Timeout:
+                raise
+            except BaseException as e:  # noqa
+                if plain:
+                    key = json.dumps([tok_json(token), bool(is_nbt)])
+                    if key not in seen:
+                        seen.add(key)
+                        cleans.append(dict(tok=tok_json(token), nbt=bool(is_nbt), ok=False, exc=type(e).__name__))
+                raise
+            if plain:
+                key = json.dumps([tok_json(token), bool(is_nbt)])
+                if key not in seen:
+                    seen.add(key)
+                    cleans.append(dict(tok=tok_json(token), nbt=bool(is_nbt), ok=True, text=out))
+            return out
+
+        def subst(string, replacements):
+            if stack and stack[-1]["table"] is None:
+                stack[-1]["table"] = dict(replacements)
+            return orig_subst(string, replacements)
+
+        def handle_lazy(self, args, kwargs, *a, **k):
+            rec = dict(args=[[tok_full(t) for t in arg] for arg in args],
+                       kwargs={key: [tok_full(t) for t in v] for key, v in kwargs.items()},
+                       params=None, table=None, macros=bool(Header().macros))
+            try:
+                rec["params"] = list(self.tokenizer.parse_param(self.params))
+            except BaseException:  # noqa
+                pass
+            stack.append(rec)
+            try:
+                return orig_lazy(self, args, kwargs, *a, **k)
+            finally:
+                stack.pop()
+                lazies.append(rec)
+
+        for m in mods:
+            if getattr(m, "clean_up_paren_token", None) is orig_clean:
+                m.clean_up_paren_token = clean
+            if getattr(m, "substitute_params", None) is orig_subst:
+                m.substitute_params = subst
+        DP.PreFunction.handle_lazy = handle_lazy
+        signal.alarm(int(j.get("timeout", 20)))
+        try:
+            p = JMCTestPack(namespace=j.get("namespace", "TEST"))
+            p.set_jmc_file(j["src"])
+            if j.get("header") is not None:
+                p.set_header_file(j["header"])
+            p.set_cert(j.get("cert") or FULL_CERT)
+            if j.get("pack_format") is not None:
+                p.set_pack_format(j["pack_format"])
+            if j.get("envs"):
+                p.set_envs(j["envs"])
+            p.build()
+            r = {"ok": True}
+        except _Timeout:
+            r = {"ok": False, "exc": "Timeout"}
+        except BaseException as e:  # noqa
+            signal.alarm(0)
+            r = {"ok": False, "exc": type(e).__name__}
+        finally:
+            signal.alarm(0)
+            for m in mods:
+                if getattr(m, "clean_up_paren_token", None) is clean:
+                    m.clean_up_paren_token = orig_clean
+                if getattr(m, "substitute_params", None) is subst:
+                    m.substitute_params = orig_subst
+            DP.PreFunction.handle_lazy = orig_lazy
+        # per parameter: the argument's tokens and the substituted text
+        bound = []
+        for rec in lazies:
+            if rec["params"] is None or rec["table"] is None or rec["macros"]:
+                continue
+            for index, param in enumerate(rec["params"]):
+                toks = rec["kwargs"].get(param)
+                form = "keyword"
+                if toks is None:
+                    if index >= len(rec["args"]):
+                        continue
+                    toks, form = rec["args"][index], "positional"
+                if "$" + param in rec["table"]:
+                    bound.append(dict(tokens=toks, text=rec["table"]["$" + param], form=form))
+        r["cleans"] = cleans
+        r["lazy_calls"] = len(lazies)
+        r["lazy_observed"] = sum(1 for rec in lazies if rec["table"] is not None)
+        r["bound"] = bound
+        res.append(r)
+    return res
+
+
 def op_calc(req):
     """jobs = [{num: [[name, value], ...] (insertion order), expr: text between the parentheses}] -> what
     hardcode_parse_calc hands to the evaluator for `Hardcode.calc(<expr>)` ({"ok": True, "text": ...}) or the diagnostic."""
@@ -258,7 +390,7 @@ def main():
     real_stdout = sys.stdout
     sys.stdout = open(os.devnull, "w")
     out = {"corpus": op_corpus, "parse": op_parse, "trace": op_trace,
-           "has_end": lambda r: has_macro_end(), "order": op_order, "probe": op_probe, "calc": op_calc}[req["op"]](req)
+           "has_end": lambda r: has_macro_end(), "order": op_order, "probe": op_probe, "calc": op_calc, "args": op_args}[req["op"]](req)
     sys.stdout = real_stdout
     json.dump(out, sys.stdout)
 
